@@ -730,21 +730,15 @@ void caseRefineSmooth(vh::Ctx& c) {
   for (auto& p : b.soup.v) have.insert(key3(p));
   for (auto& p : tg.soup.v)
     if (!have.count(key3(p))) {
-      // coordinate-free circumstance: is the vertex an end of a marked quad diagonal
-      // (tangent w == -1) and of valence 3 (the quad then shares two edges with the
-      // third triangle at that vertex)?
-      int valence = 0, diagonals = 0;
-      for (size_t h = 0; h < tg.mesh.triVerts.size(); h++) {
-        V3 st = tg.soup.v[tg.mesh.triVerts[h]];
-        if (key3(st) == key3(p)) {
-          valence++;
-          if (tg.mesh.halfedgeTangent[4 * h + 3] < 0) diagonals++;
-        }
-      }
-      const bool quadEnd = diagonals > 0;
-      // the marked quads leave the vertex with fewer than 3 edges: two of its faces share two edges
-      std::string circ = quadEnd ? (valence - diagonals < 3 ? "quad-diagonals-leave-fewer-than-3-edges-at-vertex" : "end-of-quad-diagonal") : "not-on-a-quad-diagonal";
-      fail("original-vertex-moved-or-lost:" + circ, vh::J().s("vertex", v3s(p)).i("valence", valence).i("markedQuadDiagonalsAtVertex", diagonals).raw("outMesh", vo::MeshBrief(b.mesh)));
+      // coordinate-free circumstance: the valence of the lost vertex. (Marked quad
+      // diagonals can leave a vertex with fewer than 3 other edges only if its valence
+      // is 3 or 4; the exported tangents are not usable to locate the quads because
+      // the export reorders triangles but not tangents.)
+      int valence = 0;
+      for (size_t h = 0; h < tg.mesh.triVerts.size(); h++)
+        if (key3(tg.soup.v[tg.mesh.triVerts[h]]) == key3(p)) valence++;
+      std::string circ = valence <= 4 ? "valence<=4" : "valence>4";
+      fail("original-vertex-moved-or-lost:" + circ, vh::J().s("vertex", v3s(p)).i("valence", valence).raw("outMesh", vo::MeshBrief(b.mesh)));
       return;
     }
   c.count("original_vertices_found", (long long)tg.soup.v.size());
@@ -941,8 +935,15 @@ void caseSimplify(vh::Ctx& c) {
   // feature size: the cheapest removal of a NON-redundant vertex slides a corner
   // along an edge to the next vertex (distance >= h = minEdge/n) and leaves a
   // plane at >= h*minSin; t is kept 1000x below that.
+  // For well-conditioned polyhedra (all those sines >= 0.7: boxes, regular prisms)
+  // the cheapest removal of a non-redundant vertex merges vertices of two different
+  // feature edges at distance >= h and costs >= ~(0.25 h)^2, so t may go up to
+  // 0.02*h*minSin (still >= 12x below in distance, >= 150x in cost); this is the
+  // regime where a wrong cost threshold becomes observable.
   const LD h = cond.minEdge / n;
-  const LD tMax = 1e-3L * h * cond.minSin;
+  const bool wellConditioned = cond.minSin >= 0.7L;
+  const LD tMax = (wellConditioned ? 0.02L : 1e-3L) * h * cond.minSin;
+  if (wellConditioned) c.count("simplify_well_conditioned_polyhedra");
   int mode = c.rng.range(0, 9);
   double t;
   if (mode == 0) t = 0;
